@@ -304,14 +304,27 @@ func (x *fnCtx) startAtHeader(st *State, fr *Frame, h *ssa.BasicBlock, ord int) 
 	env := &specEnv{x: x, st: st, heap: st.heap, old: fr.oldHeap, names: fr.names, fr: fr}
 	for _, cl := range x.con.Clauses {
 		if cl.Kind == "invariant" && cl.Loop == ord {
-			st.assume(x.evalSpecBool(env, cl.Expr))
+			if t, ok := x.tryEval(env, cl.Expr); ok {
+				st.assume(t)
+			} else {
+				x.addVC(st, x.short, "inv_init", ord, fmt.Sprintf("%d", cl.Ord), False, fmt.Sprintf("loop %d invariant cannot be evaluated (contract-target-missing): %s", ord, cl.Text), cl.Line)
+			}
 		}
 	}
 	// remember the variant value at the start of the iteration
 	for _, cl := range x.con.Clauses {
 		if cl.Kind == "decreases" && cl.Loop == ord {
-			v := x.evalSpec(env, cl.Expr)
-			st.ghost[fmt.Sprintf("$variant%d", ord)] = v
+			func() {
+				defer func() {
+					if r := recover(); r != nil {
+						if ee, ok := r.(engineError); ok && strings.Contains(ee.msg, "spec:") {
+							return
+						}
+						panic(r)
+					}
+				}()
+				st.ghost[fmt.Sprintf("$variant%d", ord)] = x.evalSpec(env, cl.Expr)
+			}()
 		}
 	}
 	// snapshot for prev(...) in step clauses
@@ -363,11 +376,11 @@ func (x *fnCtx) arriveAtHeader(st *State, fr *Frame, h, pred *ssa.BasicBlock, or
 	}
 	for _, cl := range x.con.Clauses {
 		if cl.Kind == "invariant" && cl.Loop == ord && cl.appliesTo(x.eng.prop) {
-			g := x.evalSpecBool(env, cl.Expr)
+			g := x.evalClause(env, cl.Expr, cl.Text)
 			x.addVC(st, x.short, kind, ord, fmt.Sprintf("%d", cl.Ord), g, fmt.Sprintf("loop %d invariant: %s", ord, cl.Text), cl.Line)
 		}
 		if cl.Kind == "step" && cl.Loop == ord && backEdge && cl.appliesTo(x.eng.prop) && st.from == fmt.Sprintf("loop %d", ord) {
-			g := x.evalSpecBool(env, cl.Expr)
+			g := x.evalClause(env, cl.Expr, cl.Text)
 			x.addVC(st, x.short, "step", ord, fmt.Sprintf("%d", cl.Ord), g, fmt.Sprintf("loop %d step relation: %s", ord, cl.Text), cl.Line)
 		}
 		if cl.Kind == "decreases" && cl.Loop == ord && backEdge {
@@ -414,7 +427,7 @@ func (x *fnCtx) checkPost(st *State, fr *Frame, res []*Val) {
 			if !cl.appliesTo(x.eng.prop) {
 				continue
 			}
-			g := x.evalSpecBool(env, cl.Expr)
+			g := x.evalClause(env, cl.Expr, cl.Text)
 			x.addVC(st, x.short, "post", cl.Ord, "", g, "ensures "+cl.Text, cl.Line)
 		}
 		// frame: heap arrays changed must be covered by modifies
@@ -502,7 +515,11 @@ func (x *fnCtx) checkTrace(st *State, env *specEnv, kind string) {
 		if neg {
 			ok = !ok
 		}
-		cond := x.evalSpecBool(env, cl.Cond)
+		cond := x.evalClause(env, cl.Cond, cl.Text)
+		if cond.Kind == KSym && strings.HasPrefix(cond.Op, "unevaluable") {
+			x.addVC(st, x.short, kind, cl.Ord, "", False, "trace clause condition cannot be evaluated: "+cl.Text, cl.Line)
+			continue
+		}
 		if ok {
 			// count the obligation as generated even when it is decided syntactically
 			x.eng.noteTrivial(fmt.Sprintf("%s/%s/%s#%d", x.eng.prop, x.short, kind, cl.Ord), x.short, kind, cl.Ord, cl.Text)
